@@ -727,9 +727,20 @@ class Interp:
             t = self.truth(c)
             if not isinstance(t, bool):
                 t2 = z3.simplify(t)
+                over = False
                 if not (z3.is_true(t2) or z3.is_false(t2)):
-                    self.note_symbolic_loop(node, frame)
+                    over = self.note_symbolic_loop(node, frame)
                 t = self.ctx.branch(t2)
+                if t and not (z3.is_true(t2) or z3.is_false(t2)):
+                    # a path that stays in a loop that is being unfolded.  Feasibility queries run on a small budget and 'unknown'
+                    # counts as feasible, so on a loaded machine an infeasible continuation would be unfolded again and again until
+                    # the budget is used up and the unit ends undecided: ask both solvers properly at every unfolding
+                    from .ctx import PathInfeasible
+                    fresh = len(self.ctx.taken) > len(self.ctx.decisions)       # not a replayed decision of an earlier path
+                    if (fresh or over) and not self.ctx.feasible_strong(10000 if over else 4000):
+                        raise PathInfeasible()
+                    if over:
+                        raise Unsupported(f"loop with symbolic guard needs an invariant ({frame.qualname} line {node.lineno})")
             if not t:
                 break
             try:
@@ -745,8 +756,7 @@ class Interp:
         key = ('unroll', id(node))
         cnt = self.hooks.get(key, 0) + 1
         self.hooks[key] = cnt
-        if cnt > self.hooks.get('max_unroll', 0):
-            raise Unsupported(f"loop with symbolic guard needs an invariant ({frame.qualname} line {node.lineno})")
+        return cnt > self.hooks.get('max_unroll', 0)
 
     def find_loop_contract(self, node, frame):
         if not self.loop_contracts:
